@@ -66,20 +66,30 @@ theorem advanceToken_rel (pos : Nat) (rest : List Char) :
       | exact ident_rel _ _ _
       | exact Or.inl rfl
 
-theorem advanceReal_rel (pos : Nat) (rest : List Char) :
-    FlagRel (advanceReal (some false) pos rest) (advanceReal (some true) pos rest) := by
-  unfold advanceReal
-  rcases advanceToken_rel pos rest with h | ⟨⟨o, l, h1⟩, t, p, r, h2, h3⟩
-  · rw [h]
-    split
-    · split
-      · exact advanceToken_rel _ _
+theorem advanceRealLoop_rel : ∀ (fuel : List Char) (pos : Nat) (rest : List Char),
+    FlagRel (advanceRealLoop (some false) fuel pos rest) (advanceRealLoop (some true) fuel pos rest) := by
+  intro fuel
+  induction fuel with
+  | nil => intro pos rest; exact advanceToken_rel pos rest
+  | cons _ fuel ih =>
+    intro pos rest
+    unfold advanceRealLoop
+    rcases advanceToken_rel pos rest with h | ⟨⟨o, l, h1⟩, t, p, r, h2, h3⟩
+    · rw [h]
+      split
+      · split
+        · exact ih _ _
+        · exact Or.inl rfl
       · exact Or.inl rfl
-    · exact Or.inl rfl
-  · rw [h1, h2]
-    have : t.kind ≠ .whitespace := by intro hk; rw [hk] at h3; simp [TokenKind.isStack] at h3
-    simp only [this, if_false]
-    exact Or.inr ⟨⟨o, l, rfl⟩, t, p, r, rfl, h3⟩
+    · rw [h1, h2]
+      have : ¬ (t.kind = .whitespace ∨ t.kind = .comment) := by
+        rintro (hk | hk) <;> (rw [hk] at h3; simp [TokenKind.isStack] at h3)
+      simp only [this, if_false]
+      exact Or.inr ⟨⟨o, l, rfl⟩, t, p, r, rfl, h3⟩
+
+theorem advanceReal_rel (pos : Nat) (rest : List Char) :
+    FlagRel (advanceReal (some false) pos rest) (advanceReal (some true) pos rest) :=
+  advanceRealLoop_rel _ pos rest
 end Lace.Asm
 
 namespace Lace.Asm
@@ -220,15 +230,24 @@ theorem advanceToken_ns (pos : Nat) (rest : List Char) :
       | exact mkTok_ns rfl _ _ _
       | trivial
 
+theorem advanceRealLoop_ns : ∀ (fuel : List Char) (pos : Nat) (rest : List Char),
+    NoStackTok (advanceRealLoop (some false) fuel pos rest) := by
+  intro fuel
+  induction fuel with
+  | nil => intro pos rest; exact advanceToken_ns pos rest
+  | cons _ fuel ih =>
+    intro pos rest
+    unfold advanceRealLoop
+    have h := advanceToken_ns pos rest
+    split
+    · split
+      · exact ih _ _
+      · rename_i heq _; rw [heq] at h; exact h
+    · exact h
+
 theorem advanceReal_ns (pos : Nat) (rest : List Char) :
-    NoStackTok (advanceReal (some false) pos rest) := by
-  unfold advanceReal
-  have h := advanceToken_ns pos rest
-  split
-  · split
-    · exact advanceToken_ns _ _
-    · rename_i heq _; rw [heq] at h; exact h
-  · exact h
+    NoStackTok (advanceReal (some false) pos rest) :=
+  advanceRealLoop_ns _ pos rest
 end Lace.Asm
 
 namespace Lace.Asm
